@@ -71,6 +71,7 @@ class RefPeer:
             'prefer': k.get('prefer', r.choice(['mine', 'mine', 'reversed'])),       # preference order among the common transforms
             'latency': k.get('latency', r.choice([0.005, 0.02, 0.1])),
             'byz_foreign_first': bool(k.get('byz_foreign_first', False)),
+            'mute_after_init': bool(k.get('mute_after_init', False)),     # answers IKE_SA_INIT and nothing else (a peer that dies right then)
         }
         self.secret = bytes(r.getrandbits(8) for _ in range(16))
         self.sessions = {}         # spi_r -> _Sess
@@ -208,6 +209,9 @@ class RefPeer:
             return self.problem('unsolicited_response', f'a response (exchange {h["exch"]}, id {h["id"]}) although the reference peer never sends a request')
         if h['exch'] == R.IKE_SA_INIT:
             return self._init(h, data, src)
+        if self.k['mute_after_init']:
+            self._c('muted')
+            return
         s = self.sessions.get(h['spi_r'])
         if s is None or s.spi_i != h['spi_i']:
             self._c('unknown_spi')
